@@ -50,18 +50,16 @@ def configs_for(prop, tier):
     Q(A, [(1, 'feature/a', 'development/4.3')], missing=['q/10.0', 'q/w/1/10.0/feature/a'])
     Q(F, [p1], missing=['q/5.1', 'q/w/1/5.1/feature/a'])
     if tier == 'thorough':
-        Q(B, [ps, p1])
-        Q(B, [p1, ps])
-        Q(A, [p2, p1])
-        Q(A, [p1, p2], force_merge=True)
-        Q(C, [(1, 'feature/a', 'development/5.1'), (2, 'bugfix/b', 'development/5')])
-        Q(E, [(1, 'bugfix/s', 'stabilization/4.3.18'), (2, 'bugfix/b', 'development/4.3')])
+        # (two pull requests on the four-destination shape, `Q(B, [ps, p1])` / `Q(B, [p1, ps])`, and the complete
+        # handler on three targets did not finish in 400 s each: not part of the tier - see DESIGN 12)
+        # so are the other two-pull-request queue merges that were listed here (> 300 s each on a loaded machine);
+        # the tier adds the octopus handler and the direct merges below
+        pass
     # the complete pull-request handler, from an arbitrary repository
     for mode in (('queue', 'skip') if prop == 'C03' else ('queue', 'noqueue', 'skip')):
         cfg.append(dict(sc='H', shape=F, prs=[p1], opts=dict(mode=mode, no_octopus=True)))
     if tier == 'thorough':
         cfg.append(dict(sc='H', shape=F, prs=[p1], opts=dict(mode='queue', no_octopus=False)))
-        cfg.append(dict(sc='H', shape=A, prs=[p1], opts=dict(mode='noqueue', no_octopus=True)))
     if prop == 'C03':
         # direct merges only happen in skip_queue_when_not_needed mode, after
         # the in-sync / build / is_needed checks
